@@ -351,7 +351,7 @@ def monitor_prio(kind):
 
 def prio_generate(fault_share=0.0, styles=None):
     def generate(rng, tier):
-        n = 150 if tier == "quick" else 3000
+        n = 400 if tier == "quick" else 3000
         return [gen_prio2_scenario(rng, tier, style=rng.choice(styles) if styles else None, fault=rng.random() < fault_share) for _ in range(n)]
     return generate
 
@@ -817,7 +817,7 @@ def monitor_prio1(kind):
 
 def prio1_generate(fault_share=0.0, stop_share=0.0, styles=None):
     def generate(rng, tier):
-        n = 120 if tier == "quick" else (800 if styles == ["saturated"] else 2500)
+        n = (120 if styles == ["saturated"] else 300) if tier == "quick" else (800 if styles == ["saturated"] else 2500)
         out = []
         for _ in range(n):
             stop = rng.choice(["stop", "cancel"]) if rng.random() < stop_share else None
@@ -990,7 +990,7 @@ class SimpleTrace:
 
 def simple2_generate():
     def generate(rng, tier):
-        return [gen_simple2_scenario(rng, tier) for _ in range(100 if tier == "quick" else 2000)]
+        return [gen_simple2_scenario(rng, tier) for _ in range(250 if tier == "quick" else 2000)]
     return generate
 
 
@@ -1102,7 +1102,7 @@ def gen_simple1_scenario(rng, tier, ending=None):
 
 def simple1_generate(endings=None):
     def generate(rng, tier):
-        return [gen_simple1_scenario(rng, tier, ending=rng.choice(endings) if endings else None) for _ in range(120 if tier == "quick" else 2500)]
+        return [gen_simple1_scenario(rng, tier, ending=rng.choice(endings) if endings else None) for _ in range(250 if tier == "quick" else 2500)]
     return generate
 
 
